@@ -60,6 +60,8 @@ def run(facts, rep, tier):
     sib = find_siblings(facts)
     rep.floor("C14.L", "sibling implementations of the per-party layout", len([n for n in sib if n in facts.bodies]), 3)
     matrices = {}
+    unjudged = []
+    separate_values = set()
     for name, label in sorted(sib.items()):
         b = facts.body(name)
         if not rep.anchor("C14.L", name, b):
@@ -98,64 +100,101 @@ def run(facts, rep, tier):
                 inner.append(sorted(hits - far))
             if all(len(h) == 1 for h in inner) and len({h[0] for h in inner}) == 3:
                 outer = (key, [h[0] for h in inner])
-        if not rep.anchor("C14.L", "%s|outer vector of three per-party tuples" % label, outer):
+        if outer is None:
+            # the per-party tuples are not three literal 3-element vectors (built by a closure, a loop over the party index,
+            # ..): the positional recovery does not apply; this sibling is not judged (the others still are)
+            rep.note("C14.L: %s builds its per-party tuples in a form the positional recovery does not read; layout not judged" % label)
+            unjudged.append(label)
             continue
-        M = []
-        D = []
+        # element-level facts: identity (source vector + constant index, or the producing calls), dependence on the secret,
+        # PRNG draws
+        E = []
         for p, ikey in enumerate(outer[1]):
             row = []
-            rowdraws = []
-            for s, op in enumerate(arrays[ikey]):
+            for s_, op in enumerate(arrays[ikey]):
                 ip = fl._index_path(op) if op[0] != "k" else None
-                src = None
-                idx = None
-                if ip and ip[1] and len(ip[1]) == 1:
-                    src, idx = ip[0], ip[1][0]
-                    deps = fd.origins(["c", [src]], ikey)
-                else:
-                    deps = fd.origins(op, ikey)
-                params = {o[1] for o in deps if o[0] == "param" and o[1] in sp}
-                draws = {o for o in deps if o[0] == "call" and o[2] in PRNG_DRAWS}
-                cls = "shares" if params else ("junk" if draws else "other")
-                row.append((cls, idx, b.var_name(src) if src is not None else None))
-                # the draws behind the element actually placed in the slot (not the whole source array)
-                rowdraws.append((cls, {o for o in fd.origins(op, ikey) if o[0] == "call" and o[2] in PRNG_DRAWS}))
-            M.append(row)
-            D.append(rowdraws)
+                src, idx = (ip[0], ip[1][0]) if (ip and ip[1] and len(ip[1]) == 1) else (None, None)
+                eo = fd.origins(op, ikey)
+                e_params = {o[1] for o in eo if o[0] == "param" and o[1] in sp}
+                e_draws = {o for o in eo if o[0] == "call" and o[2] in PRNG_DRAWS}
+                whole = fd.origins(["c", [src]], ikey) if src is not None else eo
+                w_params = {o[1] for o in whole if o[0] == "param" and o[1] in sp}
+                ident = ("vec", src, idx) if src is not None else ("val", frozenset(o[:3] for o in fl.origins(op, ikey) if o[0] == "call"))
+                row.append({"ident": ident, "src": src, "idx": idx, "params": e_params, "draws": e_draws, "wparams": w_params,
+                            "name": b.var_name(src) if src is not None else None})
+            E.append(row)
+        secret_draws = set()
+        for row in E:
+            for e in row:
+                if e["params"]:
+                    secret_draws |= e["draws"]
+
+        def cls_of(e):
+            if e["params"] or (e["src"] is not None and e["wparams"]):
+                return "shares"
+            if e["draws"] and e["draws"] <= secret_draws:
+                return "shares"         # one of the random masks of the sharing
+            if e["draws"]:
+                return "junk"
+            return "other"
+        M = [[(cls_of(e), e["idx"], e["name"]) for e in row] for row in E]
         matrices[label] = M
         share_draws = set()
-        for rd in D:
-            for cls, dr in rd:
-                if cls == "shares":
-                    share_draws |= dr
+        for row in E:
+            for e in row:
+                if cls_of(e) == "shares":
+                    share_draws |= e["draws"]
+        # (A) one source vector indexed by the slot number, or (B) three separate values used consistently
+        form_a = all(E[p][s_]["src"] is not None and E[p][s_]["idx"] == s_ for p in range(3) for s_ in (p, (p + 1) % 3)) and \
+            len({E[p][s_]["src"] for p in range(3) for s_ in (p, (p + 1) % 3)}) == 1
         for p in range(3):
-            for s_, (cls, dr) in enumerate(D[p]):
-                if cls != "junk":
-                    continue
-                common = dr & share_draws
-                rep.ob("C14.L", "%s|party%d.slot%d|junk-unrelated" % (label, p, s_), not common,
-                       "the junk in party %d's slot %d comes from PRNG draws of its own (%d), none of which feeds a share" % (p, s_, len(dr))
-                       if not common else
-                       "the junk in party %d's slot %d is computed from the same random draws as the shares (%s): it is not "
-                       "unrelated - together with a share the party holds it can cancel the mask" % (
-                           p, s_, sorted(b.loc(o[1]).split(":")[-1] for o in common)), b.loc(outer[0][0]))
-        for p in range(3):
-            for s in range(3):
-                cls, idx, vn = M[p][s]
-                if s in (p, (p + 1) % 3):
-                    ok = cls == "shares" and idx == s
-                    want = "share %d of the secret's sharing" % s
+            for s_ in range(3):
+                e = E[p][s_]
+                c = cls_of(e)
+                if s_ in (p, (p + 1) % 3):
+                    other = E[(s_ - 1) % 3 if p == s_ else s_][s_]     # the other holder of slot s_
+                    if form_a:
+                        ok = c == "shares"
+                        want = "share %d of the secret's sharing" % s_
+                    else:
+                        distinct = all(E[q][t_]["ident"] != e["ident"] for q in range(3) for t_ in (q, (q + 1) % 3) if t_ != s_)
+                        ok = c == "shares" and other["ident"] == e["ident"] and distinct
+                        want = "the share of slot %d (the same value in both parties that hold this slot, different from the other slots)" % s_
                 else:
-                    ok = cls == "junk"
+                    ok = c == "junk"
                     want = "junk (PRNG only)"
-                rep.ob("C14.L", "%s|party%d.slot%d" % (label, p, s), ok,
+                rep.ob("C14.L", "%s|party%d.slot%d" % (label, p, s_), ok,
                        "party %d slot %d holds %s[%s] (%s); expected %s%s" % (
-                           p, s, vn, idx, cls, want, "" if ok else
+                           p, s_, e["name"], e["idx"], c, want, "" if ok else
                            ": a party that receives its third share can reconstruct the secret alone / a wrong slot breaks reconstruction"),
                        b.loc(outer[0][0]))
+                if c == "junk":
+                    common = e["draws"] & share_draws
+                    rep.ob("C14.L", "%s|party%d.slot%d|junk-unrelated" % (label, p, s_), not common,
+                           "the junk in party %d's slot %d comes from PRNG draws of its own (%d), none of which feeds a share" % (p, s_, len(e["draws"]))
+                           if not common else
+                           "the junk in party %d's slot %d is computed from the same random draws as the shares: it is not unrelated" % (p, s_),
+                           b.loc(outer[0][0]))
+        if not form_a:
+            secrets = {E[p][s_]["ident"] for p in range(3) for s_ in (p, (p + 1) % 3) if E[p][s_]["params"]}
+            rep.ob("C14.L", "%s|one-secret-dependent-share" % label, len(secrets) == 1,
+                   "exactly one of the three distinct share values depends on the secret (the others are its random masks)"
+                   if len(secrets) == 1 else "%d of the share values depend on the secret" % len(secrets), b.loc(outer[0][0]))
+            by_ident = {}
+            for p in range(3):
+                for s_ in (p, (p + 1) % 3):
+                    by_ident[E[p][s_]["ident"]] = E[p][s_]
+            masks = [e for e in by_ident.values() if not e["params"]]
+            sec = [e for e in by_ident.values() if e["params"]]
+            ok_s = len(masks) == 2 and len(sec) == 1 and all(m["draws"] for m in masks) and not (masks[0]["draws"] & masks[1]["draws"]) \
+                and masks[0]["draws"] <= sec[0]["draws"] and masks[1]["draws"] <= sec[0]["draws"]
+            rep.ob("C14.L", "%s|masks-feed-the-secret-share" % label, ok_s,
+                   "the two PRNG-only shares are independent draws and both feed the secret-dependent share (v2 = v - v0 - v1)"
+                   if ok_s else "the three share values are not of the form (r0, r1, secret combined with r0 and r1)", b.loc(outer[0][0]))
+            separate_values.add(name)
     labs = sorted(matrices)
     if len(labs) >= 2:
-        norm = {l: [[(c, i if c == "shares" else None) for c, i, _ in row] for row in matrices[l]] for l in labs}
+        norm = {l: [[c for c, i, _ in row] for row in matrices[l]] for l in labs}
         for l in labs[1:]:
             rep.ob("C14.L", "agree|%s~%s" % (labs[0], l), norm[l] == norm[labs[0]],
                    "layout matrices of %s and %s are identical" % (labs[0], l))
@@ -184,7 +223,12 @@ def run(facts, rep, tier):
                 cands.append(((bb, j), deps))
         # the sharing aggregate: exactly one element depends on a non-PRNG parameter
         sharing = [c for c in cands if sum(1 for d in c[1] if d[0]) == 1 and all(d[1] for d in c[1])]
+        if name in separate_values:
+            sharing = [c for c in sharing if c[1][2][0] and c[1][0][1] <= c[1][2][1] and c[1][1][1] <= c[1][2][1]]
         short = name.split("::")[-2] + "::" + name.split("::")[-1]
+        if not sharing and name in separate_values:
+            rep.note("C14.S: %s keeps its three shares in separate values; the sharing clauses are decided by C14.L (masks-feed-the-secret-share)" % short)
+            continue
         if not rep.anchor("C14.S", "%s|[r0, r1, secret - r0 - r1] aggregate" % short, sharing):
             continue
         key, deps = sharing[0]
